@@ -232,7 +232,9 @@ def body(ctx: Ctx):
             diffs.append({"kind": "executor_run", "case": calls, "impl": f"{st}: {val!r}", "model": "5 replies", "failing": False})
             continue
         pin, out = val
-        if not pin.startswith("/repo/"):
+        import os as _os
+
+        if not pin.startswith(_os.environ.get("VERIF_REPO", "/repo") + "/"):
             raise InfraError(f"worker imported executorlib from {pin}")
         exp = [canon(r) for r in m.ask_many([to_model(c, "spec_call") for c in calls[: len(out)]])]
         for c, o, e in zip(calls, out, exp):
